@@ -16,6 +16,7 @@
 package extractsev
 
 import (
+	"encoding/binary"
 	"encoding/hex"
 	"errors"
 	"fmt"
@@ -61,8 +62,30 @@ func FromAttestation(at *spb.Attestation) ([]byte, error) {
 	return nil, ErrNotInExtras
 }
 
+// CheckCertTable returns an error if an entry of the SEV-SNP certificate table header names a byte
+// range outside the table. go-sev-guest checks offset+length in 32 bits, so a range that wraps
+// around passes its check and is then allocated and sliced as declared.
+func CheckCertTable(table []byte) error {
+	for pos := 0; pos+abi.CertTableEntrySize <= len(table); pos += abi.CertTableEntrySize {
+		entry := table[pos : pos+abi.CertTableEntrySize]
+		offset := binary.LittleEndian.Uint32(entry[16:20])
+		length := binary.LittleEndian.Uint32(entry[20:24])
+		if offset == 0 && length == 0 && [16]byte(entry[0:16]) == [16]byte{} {
+			break
+		}
+		if uint64(offset)+uint64(length) > uint64(len(table)) {
+			return fmt.Errorf("cert table entry at %d specifies a byte range outside the table (size %d): offset=%d, length=%d",
+				pos, len(table), offset, length)
+		}
+	}
+	return nil
+}
+
 // FromCertTable returns the contents of the certificate table entry for the GCE UEFI endorsement.
 func FromCertTable(table []byte) ([]byte, error) {
+	if err := CheckCertTable(table); err != nil {
+		return nil, err
+	}
 	t := new(abi.CertTable)
 	if err := t.Unmarshal(table); err != nil {
 		return nil, err
